@@ -10,7 +10,7 @@ ASSUMPTIONS = ["box extents independent integers in [6,48]; centre any voxel of 
                "algebra: 1..3 masks given as arbitrary {0,1}-valued (binary) or [0,1]-valued (soft) voxel functions of a common symbolic shape"]
 OUTSIDE = ["'blurred outwards leaves the core at 1 within 1e-3' and the Gaussian edge profile (numerics of skimage.filters.gaussian)",
            "ellipsoid: box shapes are an enumerated family of even shapes (reshape(3,-1) needs concrete extents); centre, radii, voxel stay symbolic"]
-WITNESS_ONLY = ["'blurred outwards leaves the core at 1 within 1e-3' (core_at_1_within_1e-3): evaluated with the real skimage only on the concrete witness input of each path; not counted as discharged"]
+WITNESS_ONLY = ["float-level: hard spheres of integer radius 1..24 in a 51^3 box equal the integer predicate dx^2+dy^2+dz^2 <= r^2 voxel by voxel (boundary voxels at distance exactly r included) - concrete run of h_sphere", "'blurred outwards leaves the core at 1 within 1e-3' (core_at_1_within_1e-3): evaluated with the real skimage only on the concrete witness input of each path; not counted as discharged"]
 BOUNDS = {"quick": {"box": "6..48 per axis symbolic", "ellipsoid_shapes": 3}, "thorough": {"box": "6..48 per axis symbolic", "ellipsoid_shapes": 12}}
 EXPECTED_EXCEPTIONS = ()
 OPTS = {"qtimeout": 30.0}
@@ -70,6 +70,13 @@ def h_sphere(env, explicit_centre=True, default_radius=False):
     env.check("shape", env.and_(*[env.eq(a, b) for a, b in zip(shp, n)]))
     if r is not None:
         _binary(env, "sphere", at(mask, i), env.le(_d2(i, c), r * r))
+        if env.mode == "conc" and explicit_centre:
+            # float-level clause: for integer radii the boundary voxels (distance exactly r) belong to the sphere; compared with the
+            # exact integer predicate dx^2+dy^2+dz^2 <= r^2 over the whole box, radii 1..24 (concrete run only)
+            g = np.meshgrid(np.arange(51), np.arange(51), np.arange(51), indexing="ij")
+            d2i = (g[0] - 25) ** 2 + (g[1] - 25) ** 2 + (g[2] - 25) ** 2
+            bad = [rr for rr in range(1, 25) if not np.array_equal(np.asarray(cmk.spherical_mask(51, radius=rr, center=[25, 25, 25])) > 0.5, d2i <= rr * rr)]
+            env.check("integer_radius_spheres_match_the_integer_predicate", len(bad) == 0)
     else:
         # documented default radius: half (floor) of the smallest extent
         v = at(mask, i)
@@ -245,7 +252,12 @@ def h_algebra(env, op="union", k=2, soft=False):
     vals = [at(m, i) for m in masks]
     before = [getattr(m, "version", None) for m in masks]
     copies = [np.array(m, copy=True) for m in masks] if env.mode == "conc" else None
-    out = getattr(cmk, op)(list(masks))
+    lst = list(masks)
+    out = getattr(cmk, op)(lst)
+    env.check("callers_list_of_masks_unchanged", env.true() if (len(lst) == len(masks) and all(a is b for a, b in zip(lst, masks))) else _false(env))
+    if len(lst) == len(masks):
+        again = getattr(cmk, op)(lst)          # the same list object serves a second call
+        env.check("second_call_on_the_same_list_gives_the_same_result", env.eq(at(again, i), at(out, i)))
     v = at(out, i)
     env.check("result_in_0_1", env.and_(env.ge(v, 0.0), env.le(v, 1.0)))
     if not soft:
